@@ -555,6 +555,18 @@ def g8(ctx):
                         r = strip_role(sub.role_of_operand(x.args[0]))
                         if isinstance(r, tuple) and r[0] == "call" and r[1] in ("compose", "compose_partial", "compose_fresh") and len(r[3]) == 2:
                             maps.append((sub, x, r))
+            if not maps:
+                # the transport may live in a helper that gets the map as an argument
+                for sub in b.all_bodies():
+                    if sub is b:
+                        continue
+                    for x in sub.calls:
+                        if not (x.callee and x.callee.target in crate.bodies) or sub.blocks[x.bb]["cleanup"]:
+                            continue
+                        for a_ in x.args:
+                            r = strip_role(sub.role_of_operand(a_))
+                            if isinstance(r, tuple) and r[0] == "call" and r[1] in ("compose", "compose_partial", "compose_fresh") and len(r[3]) == 2:
+                                maps.append((sub, x, r))
             ctx.floor("slot-map lookups in the symmetry transport of " + C.short(fid), len(maps), 1)
             for sub, x, r in maps:
                 a0 = strip_role(r[3][0])
